@@ -35,16 +35,17 @@ class Esc:
     stmt: str  # canonical text of the origin statement/expression
     why: str
     site: str  # file:line:qualname (display only; not part of identity)
+    kstmt: str = ""  # the same text with the function's own locals named $0, $1, ... in order of first binding: identity does not depend on what locals are called
 
     @property
     def key(self) -> str:
-        return f"{self.exc}|{self.func}|{self.stmt}"
+        return f"{self.exc}|{self.func}|{self.kstmt or self.stmt}"
 
     def __hash__(self) -> int:
-        return hash((self.exc, self.func, self.stmt))
+        return hash((self.exc, self.func, self.kstmt or self.stmt))
 
     def __eq__(self, o: object) -> bool:
-        return isinstance(o, Esc) and (o.exc, o.func, o.stmt) == (self.exc, self.func, self.stmt)
+        return isinstance(o, Esc) and (o.exc, o.func, o.kstmt or o.stmt) == (self.exc, self.func, self.kstmt or self.stmt)
 
 
 SEQ_KINDS = {"bytes", "bytearray", "str", "list", "tuple", "memoryview", "Sequence", "MutableSequence", "deque"}
@@ -187,6 +188,31 @@ class MayRaise:
     def is_sub(self, exc: str, of: str) -> bool:
         return self.exc.is_subclass(exc, of)
 
+    def local_defs(self, fi: FuncInfo) -> tuple[dict[str, ast.AST], set[str]]:
+        """(locals with exactly one binding, a plain assignment of a call-free or any expression -> that expression;
+        all other locals)"""
+        c = self.__dict__.setdefault("_local_defs", {})
+        if fi.ref not in c:
+            from .astx import local_names
+            names = set(local_names(fi.node))
+            bare = {id(n.target) for n in walk_local(fi.node) if isinstance(n, ast.AnnAssign) and n.value is None}
+            count: dict[str, int] = {}
+            for n in walk_local(fi.node):
+                if isinstance(n, ast.Name) and isinstance(n.ctx, ast.Store) and id(n) not in bare:
+                    count[n.id] = count.get(n.id, 0) + 1
+                elif isinstance(n, ast.ExceptHandler) and n.name:
+                    count[n.name] = count.get(n.name, 0) + 2
+            single: dict[str, ast.AST] = {}
+            for n in walk_local(fi.node):
+                if isinstance(n, (ast.Assign, ast.AnnAssign)) and n.value is not None:
+                    ts = n.targets if isinstance(n, ast.Assign) else [n.target]
+                    if len(ts) == 1 and isinstance(ts[0], ast.Name) and ts[0].id in names and count.get(ts[0].id) == 1:
+                        single[ts[0].id] = n.value
+                elif isinstance(n, ast.NamedExpr) and n.target.id in names and count.get(n.target.id) == 1:
+                    single[n.target.id] = n.value
+            c[fi.ref] = (single, names - set(single))
+        return c[fi.ref]
+
     def param_const(self, fi: FuncInfo, name: str):
         """The folded constant every call site in the package passes for parameter `name` of the module-level
         function `fi` (no default used, no other reference to the function), else NOFOLD."""
@@ -244,7 +270,40 @@ class _FuncAnalysis:
 
     # --------------------------------------------------------------- helpers
     def esc(self, exc: str, node: ast.AST, why: str, stmt: ast.AST | None = None) -> Esc:
-        return Esc(exc, self.fi.qualname, canon(stmt if stmt is not None else node)[:160], why, self.fi.site(node))
+        nd = stmt if stmt is not None else node
+        return Esc(exc, self.fi.qualname, canon(nd)[:160], why, self.fi.site(node), self.ktext(nd))
+
+    def ktext(self, node: ast.AST) -> str:
+        """identity text of a site: single-definition locals are replaced by their defining expression (recursively),
+        the remaining locals (loop / with / except targets, re-assigned names) by $0, $1, ... in order of appearance in
+        the expression — so the identity survives renaming of locals and unrelated edits elsewhere in the function."""
+        single, multi = self.mr.local_defs(self.fi)
+        if not any(isinstance(n, ast.Name) and (n.id in single or n.id in multi) for n in ast.walk(node)):
+            return canon(node)[:300]
+        import copy
+
+        class T(ast.NodeTransformer):
+            def visit_Name(self, n: ast.Name):
+                if isinstance(n.ctx, ast.Load) and n.id in single:
+                    return copy.deepcopy(single[n.id])
+                return n
+        cp = copy.deepcopy(node)
+        for _ in range(4):
+            before = ast.dump(cp)
+            cp = T().visit(cp)
+            if ast.dump(cp) == before:
+                break
+        order: dict[str, str] = {}
+        for n in ast.walk(cp):
+            nm = n.id if isinstance(n, ast.Name) else (n.name if isinstance(n, ast.ExceptHandler) else None)
+            if nm is not None and (nm in multi or nm in single):
+                order.setdefault(nm, f"${len(order)}")
+        for n in ast.walk(cp):
+            if isinstance(n, ast.Name) and n.id in order:
+                n.id = order[n.id]
+            elif isinstance(n, ast.ExceptHandler) and n.name in order:
+                n.name = order[n.name]
+        return canon(ast.fix_missing_locations(cp))[:300]
 
     def facts(self, node: ast.AST, local: tuple = ()) -> set[tuple[str, bool]]:
         nid = self.owner.get(id(node))
